@@ -483,14 +483,44 @@ def fam_keyorder(agg, h, methods, all_expects):
                     lkeys = [tuple(k[j] for j in order) for k in lk]
                     rkeys = [tuple(k[j] for j in order) for k in rk]
                     agg.states += 1; agg.nontrivial += 1
+                    # each key is given by NAME or as the table's own COLUMN, independently per position and per side (a tuple of
+                    # names is refused by design: "strings, Vectors, or lists")
+                    if nk == 2:
+                        specs = list(itertools.product("nc", repeat=4))
+                    else:
+                        specs = [tuple("nnnnnn"), tuple("cccccc"), tuple("ncnccn"), tuple("cnnncc"), tuple("nncccn")]
                     for method in methods:
-                        for form in ("list",):         # a tuple of names is refused by design ("strings, Vectors, or lists")
+                        for spec in specs:
                             L, R = tbl(lcols), tbl(rcols)
+                            lsp, rsp = spec[:nk], spec[nk:]
                             case = {"family": "key names listed in another order than the columns", "left_columns": [c[0] for c in lcols], "right_columns": [c[0] for c in rcols],
-                                    "left_on": lon, "right_on": ron, "method": method, "form": form}
-                            judge(agg, f"{method}.keyorder", case,
-                                  lambda: getattr(L, method)(R, left_on=(list(lon) if form == "list" else tuple(lon)), right_on=(list(ron) if form == "list" else tuple(ron)), expect="many_to_many"),
+                                    "left_on": lon, "right_on": ron, "method": method, "given_as": ["name" if c == "n" else "column" for c in spec]}
+                            lo = [nm if f == "n" else L[nm] for nm, f in zip(lon, lsp)]
+                            ro = [nm if f == "n" else R[nm] for nm, f in zip(ron, rsp)]
+                            judge(agg, f"{method}.keyorder", case, lambda: getattr(L, method)(R, left_on=lo, right_on=ro, expect="many_to_many"),
                                   method, "many_to_many", lcols, rcols, lkeys, rkeys, h, (L, R))
+    # ONE column of a side paired with TWO different columns of the other side (node == src and node == dst), both ways round
+    lk = [(1,), (2,), (3,), (2,)]
+    rk = [(1, 1), (2, 3), (2, 2), (3, 2), (2, 2)]
+    for swap in (False, True):
+        for form in ("name", "column"):
+            for method in methods:
+                one = [("node", [k[0] for k in lk]), ("p", [100 + i for i in range(len(lk))])]
+                two = [("src", [k[0] for k in rk]), ("dst", [k[1] for k in rk]), ("q", [200 + i for i in range(len(rk))])]
+                lcols, rcols = (two, one) if swap else (one, two)
+                L, R = tbl(lcols), tbl(rcols)
+                one_t, two_t = (R, L) if swap else (L, R)
+                one_on = ["node", "node"] if form == "name" else [one_t["node"], one_t["node"]]
+                two_on = ["src", "dst"] if form == "name" else [two_t["src"], two_t["dst"]]
+                lkeys = [(k[0], k[0]) for k in lk]
+                rkeys = list(rk)
+                if swap:
+                    lkeys, rkeys = rkeys, lkeys
+                case = {"family": "key names listed in another order than the columns", "one_column_paired_with_two": True, "swapped": swap, "method": method, "given_as": form}
+                agg.states += 1; agg.nontrivial += 1
+                judge(agg, f"{method}.keyorder", case,
+                      lambda: getattr(L, method)(R, left_on=(two_on if swap else one_on), right_on=(one_on if swap else two_on), expect="many_to_many"),
+                      method, "many_to_many", lcols, rcols, lkeys, rkeys, h, (L, R))
 
 
 class _NotJudged(Exception):
